@@ -17,6 +17,7 @@ import (
 	"strings"
 	"time"
 
+	"grog/internal/analysis"
 	"grog/internal/config"
 	"grog/internal/dag"
 	"grog/internal/label"
@@ -346,6 +347,28 @@ func init() {
 					return nil, err
 				}
 				resLen = c
+			case "conflicts":
+				// analysis.BuildGraph on the same shape, every target with a directory output, the two
+				// nodes of a level (unordered) and all nodes of a column (ordered) sharing none / one path:
+				// detectOutputConflicts asks targetsAreOrdered for every pair of directory outputs.
+				nm := make(model.BuildNodeMap, n)
+				for i := 0; i < n; i++ {
+					t := &model.Target{Label: label.TargetLabel{Package: "", Name: fmt.Sprintf("n%d", i)},
+						Outputs: []model.Output{model.NewOutput("dir", fmt.Sprintf("out_%d", i%2))}}
+					nm[t.Label] = t
+				}
+				for _, e := range es {
+					to := nm[label.TargetLabel{Package: "", Name: fmt.Sprintf("n%d", e[1])}].(*model.Target)
+					to.Dependencies = append(to.Dependencies, label.TargetLabel{Package: "", Name: fmt.Sprintf("n%d", e[0])})
+				}
+				runtime.GC()
+				runtime.ReadMemStats(&m0)
+				t0 = time.Now()
+				bg, err := analysis.BuildGraph(nm)
+				if err != nil {
+					return nil, err
+				}
+				resLen = len(bg.GetNodes())
 			default:
 				return nil, fmt.Errorf("bad what")
 			}
